@@ -18,6 +18,7 @@ import (
 	"strings"
 	"sync"
 	"testing"
+	"time"
 
 	"github.com/nuts-foundation/go-did/did"
 	"github.com/nuts-foundation/go-did/vc"
@@ -348,6 +349,14 @@ func evaluate(r *ev.Run, in *caseIn) (out *caseOut) {
 	}()
 	rnd := r.Rand(in.stream)
 	pd, rd, w := in.pd, in.rd, in.w
+	t0 := time.Now()
+	defer func() {
+		if strings.HasPrefix(w.class, "groups:") {
+			out.count("dbg_ms_nested", int(time.Since(t0).Milliseconds()))
+		} else {
+			out.count("dbg_ms_other", int(time.Since(t0).Milliseconds()))
+		}
+	}()
 	shape := in.ds.shape()
 	out.dist("definition_shapes", shape)
 	out.count("pairs", 1)
@@ -408,6 +417,17 @@ func evaluate(r *ev.Run, in *caseIn) (out *caseOut) {
 	}
 	if caseUnspec != "" {
 		out.unspecified(caseUnspec)
+	}
+	for _, c := range w.creds { // how well the generator's steering works (coverage only)
+		if id, ok := strings.CutPrefix(c.role, "match:"); ok {
+			out.count("credentials_meant_to_match", 1)
+			if sat[id][c.key] {
+				out.count("credentials_meant_to_match_satisfying", 1)
+			} else if in.ds.tree["submission_requirements"] != nil && strings.HasPrefix(w.class, "groups:") {
+				x := rd.desc(id)
+				out.dist("dbg_fail", failClass(rd, x, c))
+			}
+		}
 	}
 
 	// --- descriptor-level probes: the definition reduced to one descriptor, the wallet reduced to one credential
